@@ -42,6 +42,40 @@ def check(repo, col, tier):
     # inputs must be merged in the same order (shared with C05/C08/C11/C19)
     col.rule("R-C07-pairing", "inputs and their row indices are merged in the same order", 3)
     c08._pairing(repo, col, "R-C07-pairing")
+    col.rule("R-C07-stepargs", "the step function leaves its inputs (externals, their indices, the parameters) as it received them", 3)
+    step_args(repo, col, "R-C07-stepargs")
+
+
+def step_args(repo, col, R):
+    """`Module.step(u, delta_t, external_inds, externals, params, ...)` advances `u` and returns it.  Every other argument is
+    read only: the step function built by build_init_and_step_fn holds `external_inds` in its closure and integrate hands the same
+    `all_params` / `external_inds` to every step, so a store into one of them is seen again by the next step (an index converted a
+    second time, a parameter scaled twice): stepping by hand then differs from integrate, which traces the step once."""
+    from sa.effects import Effects
+    E = Effects(repo)
+    fi = repo.method("Module", "step")
+    params = [a.arg for a in fi.node.args.args if a.arg not in ("self", "u")]
+    watched = [p for p in params if p in ("external_inds", "externals", "params")]
+    if len(watched) < 3:
+        raise AnalysisError(f"Module.step no longer takes externals / external_inds / params (has {params})")
+    hits = {}
+    for e in E.summary(fi):
+        if not e.root.startswith("param:") or e.root[6:] not in watched:
+            continue
+        n = e.node
+        store = isinstance(n, (ast.Subscript, ast.Attribute)) or isinstance(n, (ast.Assign, ast.AugAssign, ast.Delete)) and any(
+            isinstance(t_, (ast.Subscript, ast.Attribute)) for t_ in (n.targets if isinstance(n, (ast.Assign, ast.Delete)) else [n.target]))
+        call = isinstance(n, ast.Call) or (isinstance(n, ast.Expr) and isinstance(n.value, ast.Call))
+        if store or call:
+            hits.setdefault(e.root[6:], []).append(e)
+    for p in watched:
+        es = hits.get(p, [])
+        chain = (" -> ".join([f.qual for f in es[0].via] + [es[0].fi.qual])) if es else ""
+        col.check(not es, R, fi, f"Module.step does not store into its argument `{p}`", "read only",
+                  f"`{unparse(es[0].node)[:80] if es else ''}` ({chain}) stores into the caller's `{p}`: the step function keeps "
+                  f"`external_inds` in its closure and every step receives the same dictionaries, so the second step sees the rewritten "
+                  f"value (e.g. an index converted twice); manual stepping and integrate (which traces one step) then differ",
+                  node=es[0].node if es else fi.node)
 
 
 def _alts(t: T):
